@@ -17,7 +17,7 @@ CHECKS = [
     },
     {
         "id": "C12",
-        "technique": "exhaustive enumeration of recv partitions for short chunked bodies + Hypothesis-generated bodies / partitions / bufsizes, judged by an independent RFC 9112 chunk decoder",
+        "technique": "exhaustive enumeration of recv partitions for short chunked bodies + Hypothesis-generated bodies / partitions / bufsizes / compression parameters + atheris coverage-guided campaign, all judged by an independent RFC 9112 chunk decoder",
         "text": "Generated well-formed chunked bodies (plain, gzip, zlib, raw deflate per chunk) are delivered through every composition of the encoded stream for n <= 15, every 1- and 2-cut partition for n <= 120 and generated partitions beyond; the bytes drained from SocketWrapper.read must equal the reference decoding of the unsegmented stream and read must not raise.",
         "note": "Chunk extensions / trailers are not generated.",
     },
@@ -30,7 +30,7 @@ CHECKS = [
     {
         "id": "C10",
         "technique": "complete structural sweep of the definition tables + PBT with pinned standard length formulas (black-box bit-exact length probe) + metamorphic sibling relations on generated block bits",
-        "text": "Every identity of the three tables and of a pinned roster is walked by the independent interpreter and decoded by the parser (complete); for generated repeat counts the bits consumed are compared bit-exactly with pinned RTCM 10403.3 / IGS SSR v1 formulas; sibling families (orbit+clock vs combined for GPS, GLONASS and six IGS constellations, extended vs basic observables, MSM per level across seven constellations, IGS sub-types across constellations) must decode identical bits to identical values and names.",
+        "text": "Every identity of the three tables and of a pinned roster is walked by the independent interpreter and decoded by the parser (complete); for generated repeat counts the bits consumed are compared bit-exactly with pinned RTCM 10403.3 / IGS SSR v1 formulas; sibling families (orbit+clock vs combined for GPS, GLONASS and six IGS constellations, combined network-RTK differences 1017 / 1039, parallel GPS / GLONASS / IGS SSR, residual and FKP messages, extended vs basic observables, MSM per level across seven constellations, IGS sub-types across constellations) must decode identical bits to identical values and names.",
         "note": "Length and width pins are the harness's transcription of the standards (three-way cross-checked), not the PDFs.",
     },
     {
@@ -77,7 +77,7 @@ CHECKS = [
     },
     {
         "id": "C06",
-        "technique": PBT + " with exhaustive enumeration of every whole-byte truncation per generated message; accept/reject differential against the independent interpreter",
+        "technique": PBT + " with exhaustive enumeration of every whole-byte truncation per generated message; accept/reject differential against the independent interpreter (also as an atheris coverage-guided campaign); truncation through the reader with validation off; python -O child",
         "text": "For every defined identity, model-built complete payloads are truncated at every byte length down to the identity header and each truncation must be rejected; arbitrary and mutated payloads are accepted iff the independent interpreter (explicit bounds test) does not overrun, with equal values when both accept.",
         "note": "Complete over cut points per message and over identities; messages themselves are sampled.",
     },
